@@ -50,6 +50,7 @@ type segSpec struct {
 	NetIdx  int      `json:"netIdx,omitempty"`
 	Skip    int64    `json:"skip,omitempty"`  // cases with ordinal <= Skip are generated but not executed (resume after a fatal case)
 	Light   bool     `json:"light,omitempty"` // reduced budget (used for the -race copies)
+	Abandon []string `json:"abandon,omitempty"` // entry points / operators not executed any more after repeated process-fatal inputs
 	Own     bool     `json:"own,omitempty"`   // this segment is the owner of its entry points for the decode_entry_points audit
 }
 
@@ -57,7 +58,7 @@ type layout struct{ bin, text, val, race int }
 
 func layoutOf(tier string) layout {
 	if tier == "quick" {
-		return layout{bin: 6, text: 3, val: 6, race: 1}
+		return layout{bin: 5, text: 4, val: 6, race: 1}
 	}
 	return layout{bin: 24, text: 10, val: 26, race: 4}
 }
@@ -222,7 +223,8 @@ func supervise(b *harness.B, seg segSpec) {
 		b.Inconclusive("cannot locate own executable: " + err.Error())
 		return
 	}
-	const maxAttempts = 6
+	const maxAttempts = 12
+	deaths := map[string]int{}
 	for attempt := 0; attempt < maxAttempts; attempt++ {
 		sub := filepath.Join(b.Work, fmt.Sprintf("sub-%d-%s-%d", b.Batch, seg.Name, attempt))
 		os.RemoveAll(sub)
@@ -236,6 +238,7 @@ func supervise(b *harness.B, seg segSpec) {
 		cmd.Stdout, cmd.Stderr = so, se
 		cmd.SysProcAttr = &syscall.SysProcAttr{Setpgid: true}
 		os.WriteFile(filepath.Join(sub, "cmd"), []byte(envSeg+"='"+string(raw)+"' "+exe+" "+strings.Join(args, " ")+"\n"), 0o644)
+		t0 := time.Now()
 		if err := cmd.Start(); err != nil {
 			b.Inconclusive("cannot start sub-worker: " + err.Error())
 			return
@@ -258,6 +261,10 @@ func supervise(b *harness.B, seg segSpec) {
 		so.Close()
 		se.Close()
 		b.Count("subworkers_run", 1)
+		b.MaxOf("max_subworker_wall_ms", time.Since(t0).Milliseconds())
+		if os.Getenv("C10_DEBUG") != "" {
+			fmt.Fprintf(os.Stderr, "segment %s attempt %d: %d ms\n", seg.Name, attempt, time.Since(t0).Milliseconds())
+		}
 
 		journal := tailOf(filepath.Join(sub, fmt.Sprintf("batch-%d.journal", b.Batch)), 6000)
 		lastRec := ""
@@ -269,6 +276,7 @@ func supervise(b *harness.B, seg segSpec) {
 			if i := strings.IndexByte(tok, ' '); i > 0 {
 				tok = tok[:i]
 			}
+			salvage(b, sub)
 			b.Inconclusive(fmt.Sprintf("sub-worker watchdog fired after %s in segment kind %s (last journalled case class: %s)", segTimeout(b.Tier), seg.Kind, tok))
 			return
 		}
@@ -300,17 +308,28 @@ func supervise(b *harness.B, seg segSpec) {
 		if i := strings.LastIndexByte(tok, '|'); i >= 0 {
 			ep, class = tok[:i], tok[i+1:]
 		}
-		frame := harness.FirstCoreFrame(stderrHead + stderrTail)
+		salvage(b, sub)
+		frame := coreFrame(stderrHead + stderrTail)
+		key := fmt.Sprintf("C10/%s/%s", kind, frame)
 		if frame == "unknown" {
-			frame = ep
+			key = fmt.Sprintf("C10/%s/%s/%s", kind, ep, class)
 		}
-		b.Violate(fmt.Sprintf("C10/%s/%s/%s", kind, frame, class),
+		b.Violate(key,
 			fmt.Sprintf("sub-worker process died (%s) while executing case %q of segment %s", kind, tok, seg.Name),
 			map[string]any{"entry_point": ep, "class": class, "journal_last": capStr(lastRec, 3000), "stderr_head": stderrHead, "stderr_tail": stderrTail, "segment": seg})
 		b.Count("subworker_deaths", 1)
 		if ord < 0 || ord <= seg.Skip {
 			b.Inconclusive("sub-worker died without a usable journal record; rest of segment " + seg.Kind + " not run")
 			return
+		}
+		unit := ep
+		if seg.Kind == "val" {
+			unit = tok
+		}
+		deaths[unit]++
+		if deaths[unit] >= 3 {
+			seg.Abandon = append(seg.Abandon, unit)
+			b.Inconclusive("remaining cases of " + unit + " not run after 3 process-fatal inputs")
 		}
 		seg.Skip = ord
 	}
@@ -422,8 +441,12 @@ func audit(b *harness.B) {
 	b.Count("decode_entry_points_match", 1-(nb+nt))
 }
 
-func runSegment(b *harness.B, seg segSpec) {
+func runSegment(hb *harness.B, seg segSpec) {
+	b := newRecB(hb)
 	m := newMon(b, seg.Skip)
+	for _, a := range seg.Abandon {
+		m.abandon[a] = true
+	}
 	switch seg.Kind {
 	case "bin":
 		runBin(b, m, seg)
@@ -434,11 +457,12 @@ func runSegment(b *harness.B, seg segSpec) {
 	default:
 		b.Inconclusive("unknown segment kind " + seg.Kind)
 	}
+	b.checkpoint()
 }
 
 func main() {
 	harness.Main(harness.Spec{
-		ID: "C10",
+		ID:   "C10",
 		Rule: "(1) every binary wire entry point (wirereg, 177 decoders) x {own valid encodings of generated values, their prefixes, single/multi-byte mutations, every 8-byte window overwritten with 0,1,remaining-1,remaining,remaining+1,2^16,2^20,2^24,2^31,2^32-1,2^32,2^32+1,2^62,2^63-1,2^63,2^64-1, tails, semi-random words, random bytes, deep/wide policy nests}; every UnmarshalJSON/UnmarshalText/Parse* function and the JSON form of the composite types x {own valid output, prefixes, byte edits, numeric tokens -> exponents/long digits/negative/huge, hex tokens -> overlong/odd/truncated, nests, JSON tree attacks: map keys and indices out of range, wrong types, huge numbers, hostile strings, deep nesting, repeated elements}; (2) every block accepted on chaingen histories of six network families (incl. the legacy ephemeral window) x hostile operators (currency extremes/pairs/compensated sums, siafund values, covered-field and key indices, proof lengths, leaf indices, parents duplicated/missing/swapped, deep/wide policies, uint64 extremes, resolution types, rollover/ephemeral-claim/fee overflow constructions, payouts), re-signed, re-sealed, validated at transaction and block level; (3) every accepted block applied and reverted. Oracles: recover()+journal crash monitor, TotalAlloc <= 1 MiB + 1024*len(input) (window, bisect, solo), thread CPU <= 10^4 x calibrated per-byte cost (solo confirmed). distinct = (entry point or operator, attack class, value/field class, era, outcome).",
 		Assume: []string{
 			"supplements and ancestor timestamps are the caller's trusted inputs: variants get the supplement the store model builds for them",
@@ -446,8 +470,8 @@ func main() {
 			"Encode* of programmer-error values, gateway V2BlockOutline.Complete and RHP Validate() methods are not judged",
 			"a sub-worker killed by the watchdog is inconclusive, not a violation",
 		},
-		Batches:     func(t string) int { return layoutOf(t).total() },
-		Run:         run,
+		Batches: func(t string) int { return layoutOf(t).total() },
+		Run:     run,
 		RaceBatches: func(t string) []int {
 			l := layoutOf(t)
 			var out []int
